@@ -514,6 +514,13 @@ class AxiFabric:
         self.limit = limit
         self.domain = domain
         self.monitored = monitored      # False: ill-formed configuration (overlapping address map): no property to check
+        # data handed over before its address is even presented is inside the monitored domain only where the code
+        # handles it: ONE slave whose decoder accepts every address (otherwise the decoder steers the lone data beat by
+        # the idle address lines — to another slave or to none: known finding C08-decoder-w-before-aw)
+        d0 = decs[0] if decs else None
+        self.early_ok = len(slaves) == 1 and d0 is not None and (
+            d0.word() == "all" or (d0.word().startswith("region:0:") and
+                                   (1 << (int(d0.word().split(":")[2]) - 1).bit_length()) >= (1 << masters[0].address_width)))
         try:
             nl = FastNetlist(module) if fast else Netlist(module)
         except Unsupported:
@@ -880,7 +887,10 @@ class AxiEnv:
         self.a_age = [[0, 0] for _ in range(n)]
         self.wbeats = [[] for _ in range(n)]                # pays of write beats still to present (in order)
         self.w_cur = [None] * n
-        self.early = [0] * n                                # out-of-domain: beats queued ahead of their address
+        self.early = [0] * n                                # beats handed over ahead of their address
+        self.w_is_early = [False] * n                       # the beat in w_cur is such a beat
+        self.owe = [False] * n                              # early beat accepted: the address must be raised now
+        self.sticky = None                                  # masters that keep b.ready / r.ready high also while idle
         # slaves
         self.s_aw = [0] * m
         self.s_wl = [0] * m
@@ -944,6 +954,10 @@ class AxiEnv:
                 self.a_acc[i][0] += 1
             if x[WV] and o[WR]:
                 self.w_cur[i] = None
+                if self.w_is_early[i]:
+                    self.w_is_early[i] = False
+                    if self.early[i] and self.a_cur[i][0] is None and not (x[AWV] and o[AWR]):
+                        self.owe[i] = True
             if o[BV] and x[BR]:
                 self.resp[i][0] += 1
             if x[ARV] and o[ARR]:
@@ -995,7 +1009,8 @@ class AxiEnv:
                         self.a_cur[i][d] = None
                     continue
                 out = self.a_acc[i][d] - self.resp[i][d]
-                if out < self.max_out and rng.random() < p_start:
+                force = d == 0 and self.owe[i]      # early data accepted in the previous cycle: raise the address now
+                if force or (out < self.max_out and rng.random() < p_start):
                     na = self._new_addr(rng, i, d)
                     if na is None:
                         continue
@@ -1005,7 +1020,7 @@ class AxiEnv:
                     beats = 1
                     if self.full:
                         sh, wd = self.awlen if d == 0 else self.arlen
-                        beats = rng.choice((1, 1, 2, 3, 4))
+                        beats = 1 if (d == 0 and self.early[i] and self.domain) else rng.choice((1, 1, 2, 3, 4))
                         pay = (pay & ~(((1 << wd) - 1) << sh)) | ((beats - 1) << sh)
                     nb = 0
                     if d == 0:
@@ -1020,6 +1035,8 @@ class AxiEnv:
                             self.wbeats[i].append(wp)
                     self.a_cur[i][d] = (addr, pay, j, nb)
                     self.a_age[i][d] = 0
+                    if d == 0:
+                        self.owe[i] = False
                     if j is not None:
                         self.lock[i][d] = j
             # write data
@@ -1031,11 +1048,25 @@ class AxiEnv:
                     # data ahead of its address (outside NoDataBeforeAddr)
                     self.w_cur[i] = rng.getrandbits(self.w_w)
                     self.early[i] = 1
+                elif self.domain and self.inst.early_ok and not self.wbeats[i] and self.a_cur[i][0] is None \
+                        and self.early[i] == 0 and not self.owe[i] \
+                        and self.a_acc[i][0] - self.resp[i][0] < self.max_out and rng.random() < 0.2 * p_start:
+                    # one-slave fabric: a single data beat ahead of its address; the address is raised while the beat
+                    # waits or, at the latest, in the cycle after its handshake (the region where the code is correct)
+                    wp = rng.getrandbits(self.w_w)
+                    if self.full:
+                        wp |= 1 << self.wlast_bit
+                    self.w_cur[i] = wp
+                    self.early[i] = 1
+                    self.w_is_early[i] = True
             aw, ar = self.a_cur[i]
+            if self.sticky is None:
+                self.sticky = [rng.random() < 0.4 for _ in range(n)]
             parts.append(m_part(aw=(aw[0], aw[1]) if aw else None, idle_aw=(g(self.addr_w), g(self.aw_w)),
-                                w=self.w_cur[i], idle_w=g(self.w_w), b_ready=int(rng.random() < p_mready),
+                                w=self.w_cur[i], idle_w=g(self.w_w),
+                                b_ready=1 if self.sticky[i] else int(rng.random() < p_mready),
                                 ar=(ar[0], ar[1]) if ar else None, idle_ar=(g(self.addr_w), g(self.ar_w)),
-                                r_ready=int(rng.random() < p_mready)))
+                                r_ready=1 if self.sticky[i] else int(rng.random() < p_mready)))
         for j in range(m):
             if self.b_cur[j] is None and self.s_b[j] < min(self.s_aw[j], self.s_wl[j]) and rng.random() < p_resp:
                 self.b_cur[j] = rng.getrandbits(self.b_w)
@@ -1086,6 +1117,12 @@ class AxiMonitor:
       L  (lock)       the unanswered requests of a shared bus (crossbar: of one slave) all belong to one master.
       W  (wait)       while a master keeps presenting an address for the bus (crossbar: for slave j), at most n-1
                       lock periods of other masters start.
+      W2 (served)     an address presented in a cycle in which the bus (crossbar: its slave) holds no unanswered request,
+                      no response is offered and no other master requests is seen by its slave — the one whose region
+                      contains the byte address — in the next cycle at the latest (no starvation by an idle owner).
+      E  (early data) on fabrics with one slave that owns the whole address space data may be handed over before its address is presented (the address follows
+                      no later than the cycle after the data handshake): until that address is accepted nobody else gets
+                      a write address or write data through to that slave.
     With inst.domain = False (runs outside SameSlaveWhileLocked / NoDataBeforeAddr, or with non-AXI environments)
     only the address-independent part is checked: A/D/R as payload-equal pairings in the same cycle."""
 
@@ -1103,6 +1140,9 @@ class AxiMonitor:
         self.mq = [[[] for _ in range(n)] for _ in (0, 1)]         # slaves per master (issue order)
         self.wq = [[] for _ in range(n)]                           # slaves of accepted addresses awaiting data
         self.early = [None] * n                                    # (slave, burst complete) of data sent ahead
+        # data handed over before its address is even presented is judged only on fabrics with `inst.early_ok`
+        self.early_ok = inst.early_ok
+        self.free = [[None] * n for _ in (0, 1)]                   # W2: (slave, addr, pay) presented in a free cycle
         nres = m if self.kind == "xbar" else 1
         self.nres = nres
         self.owner = [[None] * nres for _ in (0, 1)]               # last master seen handshaking on the resource
@@ -1115,6 +1155,17 @@ class AxiMonitor:
 
     def _res(self, j):
         return j if self.kind == "xbar" else 0
+
+    def _early_clash(self, i, j, what):
+        """E: while the data of master i2 sits at a slave ahead of its address, nobody else may get a write address or
+        write data through to that slave (shared: to the bus) — the slave would pair i2's data with a foreign address."""
+        for i2 in range(self.n):
+            e = self.early[i2]
+            if i2 != i and e is not None and self._res(e[0]) == self._res(j):
+                return ("E: write %s of master %d is accepted by slave %d while the data master %d handed over ahead of "
+                        "its address is still waiting there for that address (the grant moved in between: address/data "
+                        "pairs of two masters are mixed)" % (what, i, j, i2))
+        return None
 
     @staticmethod
     def _take(lst, pred):
@@ -1198,6 +1249,10 @@ class AxiMonitor:
             if SA:
                 return "A: slave %d accepts a %s address that no master hands over in this cycle" % (SA[0][0], dn)
             for (i, j) in acc:
+                if d == 0 and dom:
+                    r = self._early_clash(i, j, "address")
+                    if r:
+                        return r
                 self.fifo[d][j].append(i)
                 self.mq[d][i].append(j)
                 if d == 0:
@@ -1229,7 +1284,7 @@ class AxiMonitor:
                             if len(tg) == 1:
                                 exp = tg[0]
                                 self.early[i] = (exp, bool(self._wlast(pay)))
-                        elif self.hyp:
+                        elif self.hyp and not self.early_ok:
                             self.void = "master %d hands over write data before presenting its address (outside NoDataBeforeAddr)" % i
                             return None
                         else:
@@ -1237,17 +1292,50 @@ class AxiMonitor:
                             if got is None:
                                 return "D: write data %#x of master %d is accepted but no slave sees the handshake" % (pay, i)
                             self.early[i] = (got[0], bool(self._wlast(pay)))
+                            r = self._early_clash(i, got[0], "data")
+                            if r:
+                                return r
                             continue
                     if exp is not None:
                         got = self._take(SW, lambda x: x[0] == exp and x[1] == pay)
                         if got is None:
                             return "D: write data %#x of master %d is accepted but slave %d (where its address went / goes) sees no such handshake; slaves accepting data: %r" % (pay, i, exp, SW)
+                        r = self._early_clash(i, exp, "data")
+                        if r:
+                            return r
                     else:
                         got = self._take(SW, lambda x: x[1] == pay)
                         if got is None:
                             return "D: write data %#x of master %d is accepted but no slave sees the handshake" % (pay, i)
                 if SW:
                     return "D: slave %d accepts write data that no master hands over in this cycle" % SW[0][0]
+            # ---- W2: an address presented while the bus / its slave is free is shown to the slave in the next cycle
+            if dom:
+                nowfree = [None] * n
+                quiet_resp = [not ss[j][XV] for j in range(m)]
+                for i in range(n):
+                    prevf = self.free[d][i]
+                    if prevf is not None and ms[i][AV] and (ms[i][AA], ms[i][AP]) == prevf[1:]:
+                        r_s = prevf[0]
+                        if not (to_s[r_s][AV] and to_s[r_s][AA] == ms[i][AA] and to_s[r_s][AP] == ms[i][AP]):
+                            return ("W2: master %d presents %s address %#x (slave %d) for the second cycle with nothing "
+                                    "outstanding and nobody else requesting, and slave %d still does not see it "
+                                    "(the grant is not handed over / the address is not routed to its slave)"
+                                    % (i, dn, ms[i][AA], r_s, r_s))
+                    if not ms[i][AV] or to_m[i][AR_]:
+                        continue
+                    tg = inst.target(ms[i][AA])
+                    if len(tg) != 1:
+                        continue
+                    r_s = tg[0]
+                    others_idle = all(i2 == i or (not ms[i2][AV] and (d == 1 or not ms[i2][WV])) for i2 in range(n))
+                    res_js = [r_s] if self.kind == "xbar" else range(m)
+                    empty = all(not self.fifo[d][j] and quiet_resp[j] for j in res_js) and \
+                        not any(self._res(j2) == self._res(r_s) for (_, j2) in acc)
+                    noearly = d == 1 or all(i2 == i or self.early[i2] is None for i2 in range(n))
+                    if others_idle and empty and noearly:
+                        nowfree[i] = (r_s, ms[i][AA], ms[i][AP])
+                self.free[d] = nowfree
             # ---- L: one owner per resource ---------------------------------------------------------------
             if dom:
                 if self.kind == "xbar":
